@@ -1,8 +1,9 @@
 SPECIFICATION Spec
 CONSTANTS
-  Deviations <- AllDevs
+  Deviations <- ShadowDev
   MaxExtra = 0
   AttrModes <- ModesQuick
   VarNone = FALSE
+  ReqVersions <- ReqQuick
 INVARIANT Mirror
 CHECK_DEADLOCK FALSE
